@@ -101,6 +101,19 @@ def model_cmd(md):
     return " ".join(t)
 
 
+def f2_witness():
+    """Fixed first case: the program on which finding F2 was reproduced (six values referenced only from requirements)."""
+    m = 6
+    L = [f"x{k} = Range(0, {hi(k)})" for k in range(m)]
+    L += ["ego = new Object at (Range(-5, 5), Range(-5, 5))", "require x0 + x1 + x2 < 2.5", "require x3 + x4 > 0.3",
+          "require x5 > 0.1", "param p = Range(0, 1)"]
+    names = {f"{0.0!r}:{float(hi(k))!r}": f"x{k}" for k in range(m)}
+    nodes = [(1, []) for _ in range(m)] + [(0, [])]
+    model = dict(nodes=nodes, insts=[m], params=[], bindings=[[0, 1, 2, m], [3, 4, m], [5, m]], beh=[], nleaves=m,
+                 labels=[f"x{k}" for k in range(m)] + ["ego"])
+    return dict(name="prog-f2", src="\n".join(L) + "\n", names=names, model=model, has_beh=False)
+
+
 VARIANTS = [  # (variant id, PYTHONHASHSEED, mode)
     (0, "0", "sequential"), (1, "1", "sequential"), (2, "12345", "sequential"),
     (3, "4242424242", "sequential"), (4, "77", "batch"), (5, "31337", "fresh-checker")]
@@ -157,7 +170,7 @@ def main():
     rng = c.rng
     nprog, nseeds, variants = (12, 2, VARIANTS) if quick else (120, 3, VARIANTS + [(v, str(1000 + v), "sequential") for v in range(6, 24)])
     nprog = int(os.environ.get("VERIF_C15_NPROG", nprog))   # development aid (self-tests on a loaded machine)
-    progs = [gen_program(rng, i) for i in range(nprog)]
+    progs = [f2_witness()] + [gen_program(rng, i) for i in range(nprog - 1)]
     jobs = []
     for p in progs:
         for s in range(nseeds):
